@@ -36,4 +36,9 @@ PROPS = {
         "level_text": "Machine-checked Lean 4 theorems for EVERY list of five distinct real cards (hence every slot order) and all five-card entry points: no panic, value in 1..7462, all entry points agree; lower value iff the first hand beats the second and equal value iff they tie under the rules-of-poker specification Spec.strength; independent of slot order; every value 1..7462 is produced; royal flush = 1, 7-5-4-3-2 = 7462. The four lookup tables are regenerated from the compiled crate on every run and the kernel facts A, B, W are re-proved when they change; the evaluator algorithm (bit ops, binary search) is hand-modelled and compared with the crate on all 2,598,960 hands x slot orders.",
         "level_note": "Trusts: Lean kernel; Spec/Poker.lean as the meaning of poker strength; rustc; extractor; gen_lean.py; the driver correspondence for the hand-written evaluator model (exhaustive over all five-card hands in >= 3 slot orders, all 120 in thorough, plus the binary search on every table key +-1).",
     },
+    "C13": {
+        "technique": "Lean 4 proof: bridge lemmas + testBit characterisation of rank masks + kernel evaluation over all 8,192 rank masks and the 7,462 classes",
+        "level_text": "Machine-checked Lean 4 theorems for every list of five distinct real cards (any order): the flush predicate equals 'all suits equal'; the (repaired) straight predicate equals 'the ranks present are exactly one of the ten straight sets' (kernel pass over all 8,192 masks of the model of count_ones/leading_zeros/trailing_zeros + general testBit lemma); straight-flush and wheel likewise; all agree with the category digit of the hand's strength under the poker specification (kernel pass over the 7,462 classes); the deprecated free functions equal the methods for any five words. The unrepaired predicate is refuted on 6-5-4-2-2.",
+        "level_note": "Trusts: Lean kernel; Spec; models of count_ones/leading_zeros/trailing_zeros (documented meaning; compared with the crate through is_straight on every hand); rustc; extractor; driver correspondence (all hands x slot orders, flags included in the bulk enum5 stream).",
+    },
 }
